@@ -46,6 +46,9 @@ func NewWorker(cfg *Config, tracePath string) (*Worker, error) {
 		}
 	}
 	cl.Boot = false
+	if cfg.Mode == "step" {
+		w.reset() // scenarios start without backend connections (the probe connection of the bootstrap is closed)
+	}
 	return w, nil
 }
 
